@@ -170,7 +170,7 @@ def shards(tier: str) -> list:
     combos += [(E.ST_HELLO_SENT, 1)]  # noise: finish parked on the handshake
     for st, nz in combos:
         for i in _enabled_first(st, nz):
-            out.append({"fn": fn, "env": {"STAGE": st, "SH0": i, "NOISE": nz}, "cond_timeout": 300 if tier == "quick" else 1800, "path_timeout": 60,
+            out.append({"fn": fn, "env": {"STAGE": st, "SH0": i, "NOISE": nz}, "cond_timeout": 600 if tier == "quick" else 2400, "path_timeout": 60,
                         "desc": f"stage {E.STAGE_NAMES[st]}{' (noise)' if nz else ''}, first event {E.NAMES[ALPHA[i]]}, then {2 if tier == 'quick' else 3} symbolic events; then time runs until every call ended"})
     return out
 
